@@ -61,9 +61,9 @@ class TreeSmoother(Transform[Tree, Tree]):  # pylint: disable=missing-class-docs
         for br in x.get_branches():
             # TODO: works but is weird
             smoothed = self.trans(br)
-            x.ndata["x"][br.origin_id()] = smoothed.x()
-            x.ndata["y"][br.origin_id()] = smoothed.y()
-            x.ndata["z"][br.origin_id()] = smoothed.z()
+            x.ndata[x.names.x][br.origin_id()] = smoothed.x()
+            x.ndata[x.names.y][br.origin_id()] = smoothed.y()
+            x.ndata[x.names.z][br.origin_id()] = smoothed.z()
 
         return x
 
